@@ -265,14 +265,24 @@ def run(rep, tier):
     # convention, form feeds); a hand-written class of blanks narrows the documented syntax
     rw_ = rep.rule("R13.w", "inter-token white space is recognised by combine's spaces() only: no local parser named spaces/space, no literal made of white-space characters in the grammar", floor=2)
     sp_calls, ws_lits = {}, []
+    # the grammar: the functions of asm_parser that build parsers (`-> impl Parser`), the entry point, and their closures
+    def grammar_fn(q):
+        root = q.split("::{closure")[0]
+        return root == "asm_parser::parse" or "Parser<" in (F.fns.get(root, {}).get("ret") or "")
     for pth, fn in F.fns.items():
-        if not pth.startswith("asm_parser::") or not fn.get("thir"):
+        if not pth.startswith("asm_parser::") or not fn.get("thir") or not grammar_fn(pth):
             continue
         for n in walk(fn["thir"]["body"]):
             if n.get("k") == "call" and re.search(r"::(spaces|space|skip_spaces|whitespace)$", callee_path(n) or ""):
                 sp_calls.setdefault(callee_path(n), set()).add(pth.split("::{")[0])
-            if n.get("k") == "lit" and isinstance(n.get("v"), str) and n["v"] and not n["v"].strip() and n.get("lk") in ("str", "char", None):
+            if pth.split("::{closure")[0] != "asm_parser::parse" and n.get("k") == "lit" and isinstance(n.get("v"), str) and n["v"] and not n["v"].strip() \
+                    and n.get("lk") in ("str", "char", None):
                 ws_lits.append((pth, repr(n["v"])))
+            # in the entry point only what is handed to a combine parser counts (its error text may contain line breaks)
+            if pth.split("::{closure")[0] == "asm_parser::parse" and n.get("k") == "call" and (callee_path(n) or "").startswith("combine::"):
+                for x in walk(n["args"]):
+                    if x.get("k") == "lit" and isinstance(x.get("v"), str) and x["v"] and not x["v"].strip():
+                        ws_lits.append((pth, repr(x["v"])))
     local_ws = sorted(c for c in sp_calls if not c.startswith("combine::"))
     from dispatch import thir_reach
     reach_parse = thir_reach(F, ["asm_parser::parse"])
